@@ -369,6 +369,15 @@ def r4_activation_pairing(ctx, rule="C03.R4"):
                      (push_stack < pop, "PushStack precedes PopStack"),
                      (push_stack < stash < pop, "by-ref values are stashed while the callee context is current"),
                      (pop < unstash, "by-ref values are written back in the caller's context")]
+            # what is stashed is what is written back: both walk the same argument list (a list filtered for
+            # one of them enqueues values nobody dequeues - the queue grows, and the leftover is taken for an
+            # argument of the enclosing call)
+            st_ev = [ev for ev in seq if ev.callee is not None and ev.callee.name == "generate_stash_by_ref_args"]
+            un_ev = [ev for ev in seq if ev.callee is not None and ev.callee.name == "generate_un_stash_by_ref_args"]
+            if st_ev and un_ev and len(st_ev[0].args) > 1 and len(un_ev[0].args) > 1:
+                a, b2 = mir.strip_all(st_ev[0].args[1]), mir.strip_all(un_ev[0].args[1])
+                conds.append((a == b2, "the list of arguments written back (%s) is the list that was stashed (%s)"
+                              % (mir.short_origin(b2), mir.short_origin(a))))
             if "function" in name:
                 sf = pos("generate_stash_function_return_value")
                 uf = pos("generate_un_stash_function_return_value")
